@@ -41,6 +41,9 @@ def run(ck):
     ck.rule("C06.R9", "enter / exit / current_span / new_span reach the registry through Dispatch unchanged (as C09.R4)", floor=4)
     ck.rule("C06.R10", "root / contextual / explicit parent is encoded and decoded consistently: Attributes and Event constructors store the Parent variant their name says, and is_root / is_contextual / parent read back exactly that variant", floor=10)
     ck.rule("C06.R11", "ancestors stay readable while anything refers to them: the registry's reference count moves by atomic read-modify-write only, with the release/acquire pairing of the last decrement (as C05.R2)", floor=3)
+    ck.rule("C06.R15", "a thread starts with an empty span stack: the storage of the per-thread stack does not outlive its thread (or is emptied when the thread ends)", floor=1)
+    ck.rule("C06.R14", "every layer of the workspace that writes out the spans an event happened in asks for the *event's* scope (explicit parent, explicit root "
+            "or the current span), not for the thread's current span: fmt and tracing-journald agree", floor=2)
     ck.rule("C06.R13", "a span entered through the handle leaves the current-span stack when the scope ends, by return or by unwinding: the guards' drops, "
             "in_scope and EnteredSpan::exit exit exactly once (as C03.R5)", floor=5)
     ck.rule("C06.R12", "`current span` is asked of the emitting thread's current collector: get_default's path choice and who may write the per-thread default (as C02.R2/R3)", floor=6)
@@ -60,6 +63,8 @@ def run(ck):
     # when the code in between unwinds: guards, in_scope and EnteredSpan::exit (C03.R5, instantiated)
     from rules import C03 as _C03
     _C03.r5(ck, F, rid="C06.R13")
+    event_context_siblings(ck, F)
+    stack_storage(ck, F)
     from rules import C05 as _C05
     _C05.r2(ck, F, rid="C06.R11")
     from rules import C09 as _C09
@@ -345,6 +350,72 @@ def r5(ck, F):
         else:
             ck.bad("C06.R5", key, where(ws.raw["sp"]), "the captured id is resolved through %s: read on another thread, after the scope ended or under another collector "
                    "the trace is empty or shows an unrelated span's ancestors" % (sorted(set(ambient)) or "something other than Span::with_collector"), fn=ws.path)
+
+
+def stack_storage(ck, F, rid="C06.R15"):
+    """`thread_local::ThreadLocal` hands a finished thread's slot -- value included -- to the next thread that is given the
+    recycled thread id, and a guard dropped during thread teardown finds `current_spans.get()` already None, so its exit
+    does nothing: a span left entered when a thread ends becomes the `current span` of an unrelated later thread."""
+    adt = F.adts.get("tracing_subscriber::registry::sharded::Registry")
+    if not ck.anchor(rid, "Registry", adt):
+        return
+    ty = {f["name"]: f["ty"] for f in adt["variants"][0]["fields"]}.get("current_spans", "")
+    key = "the per-thread span stack does not survive its thread"
+    if ty.startswith("thread_local::ThreadLocal<"):
+        cleared = any(b.path.startswith("tracing_subscriber::registry::") and any(t["callee"].get("method") in ("clear", "iter_mut") and "ThreadLocal" in str(t["callee"].get("path")) for bb, t in b.calls())
+                      for b in F.body_list)
+        if cleared:
+            ck.ok(rid, key, detail=ty[:80])
+        else:
+            ck.bad(rid, key, adt["span"], "current_spans is a %s and nothing ever empties a finished thread's slot: the next thread that gets the recycled id inherits the dead "
+                   "thread's entered spans as its current span and as contextual parent" % ty[:90])
+    else:
+        ck.ok(rid, key, detail=ty[:80])
+
+
+def event_context_siblings(ck, F, rid="C06.R14"):
+    """Sibling agreement (one interface, several implementations): an `on_event` that walks a span scope to describe where the
+    event happened must start from Context::event_scope / event_span. Starting from lookup_current ignores `parent: &span`
+    and `parent: None` on the event."""
+    SUB = "tracing_subscriber::subscribe::Subscribe"
+    CTX = "subscribe::context::Context"
+    found = 0
+    for cfg in ("default", "consumers"):
+        try:
+            G = F if cfg == "default" else Facts(cfg)
+        except Exception as e:
+            ck.bad(rid, "facts for the other consumers of the subscriber API", cfg, "could not be generated: %s" % str(e)[:120])
+            continue
+        if cfg not in ck.configs:
+            ck.configs.append(cfg)
+        for imp in G.impls_of(SUB):
+            m = imp["methods"].get("on_event")
+            b = G.body(m) if m else None
+            if b is None:
+                continue
+            bodies = [b] + G.closures_of(b)
+            ctx = {t["callee"].get("method") for x in bodies for bb, t in x.calls() if CTX in str(t["callee"].get("path"))}
+            if not (ctx & {"lookup_current", "event_scope", "event_span", "current_span"}):
+                continue
+            found += 1
+            key = "%s::on_event describes the event's own span context" % "::".join(imp["self_ty"].split("<")[0].split("::")[-2:])
+            if "lookup_current" in ctx and not (ctx & {"event_scope", "event_span"}):
+                ck.bad(rid, key, where(b.raw["sp"]), "walks the scope of Context::lookup_current(): an event emitted with `parent: &other_span` is recorded under the thread's "
+                       "current span and one emitted with `parent: None` under a span it does not belong to (the fmt layer uses event_scope)", fn=b.path)
+            else:
+                ck.ok(rid, key, fn=b.path, detail=sorted(c for c in ctx if c))
+    # the fmt formatters reach the scope through FmtContext: its accessors are the event's
+    for acc in ("event_scope", "parent_span"):
+        fc = F.body("tracing_subscriber::fmt::fmt_subscriber::FmtContext::<'_, C, N>::" + acc)
+        if ck.anchor(rid, "FmtContext::" + acc, fc):
+            found += 1
+            calls = {t["callee"].get("method") for bb, t in fc.calls()}
+            if calls & {"event_scope", "event_span"}:
+                ck.ok(rid, "FmtContext::%s is the event's" % acc, fn=fc.path)
+            else:
+                ck.bad(rid, "FmtContext::%s is the event's" % acc, where(fc.raw["sp"]), "calls %s" % sorted(c for c in calls if c), fn=fc.path)
+    if found < 2:
+        ck.bad(rid, "layers that describe an event's span context", "workspace", "only %d found (fmt and tracing-journald expected)" % found)
 
 
 def r8(ck):
